@@ -152,11 +152,18 @@ def check(ctx, rep):
                         if not ct_ok:
                             break
         info = {"cachetime_ok": ct_ok}
-        loads = [c for c, t in eff.calls_of(lc, C) if t.kind == "ext" and t.ext in ("pickle.load", "pickle.loads", "marshal.load")]
+        from ..structure import helper_calls
+
+        LOADERS = ("pickle.load", "pickle.loads", "marshal.load")
+        loads = [c for c, t in eff.calls_of(lc, C) if t.kind == "ext" and t.ext in LOADERS]
+        # helpers of the handler that loadcache delegates to (freshness predicate, file reader) are walked with it
+        lc_helpers = [g for g, _, _, _ in helper_calls(prog, ctx.resolver, lc, C, depth=2) if g.cls is not None and prog.is_subclass(C, g.cls)]
+        for g in lc_helpers:
+            loads.extend(c for c, t in eff.calls_of(g, C) if t.kind == "ext" and t.ext in LOADERS)
         if not loads:
             rep.fail("R10a", f"{lc.qualname}: load site", ctx.where(lc), "no deserialisation found in loadcache")
             continue
-        w = Walker(prog, ctx.resolver)
+        w = Walker(prog, ctx.resolver, fork_returns=True, inline=lambda fn, t, d: d < 3 and t.bound_cls is not None and fn in lc_helpers)
         problems = set()
         n_paths = 0
         for p in w.run(lc, C):
@@ -168,7 +175,7 @@ def check(ctx, rep):
                 if e.kind == "call" and e.node in loads:
                     break
                 if e.kind == "test" and e.extra is not None:
-                    v = freshness(e.node, bool(e.extra), lc, e.defs or {}, info)
+                    v = freshness(e.node, bool(e.extra), (e.frame[0] if e.frame and e.frame[0] is not None else lc), e.defs or {}, info)
                     if v:
                         verdicts.append(v)
             if "fresh" in verdicts:
@@ -351,13 +358,17 @@ def check(ctx, rep):
     # ------------------------------------------------------------------ R10d
     dp = prog.resolve_method(dirbase, "prepare")
     if dp is not None:
-        w = Walker(prog, ctx.resolver)
         problems = set()
-        for p in w.run(dp, dirbase):
-            hit = None
-            for e in p.events:
-                if e.kind == "test" and norm(e.node) == "self.loadcache()":
-                    hit = bool(e.extra)
+
+        def _lc(val):
+            return lambda call, target, st: val if norm(call) == "self.loadcache()" else None
+
+        scenarios = []
+        for hitval in (True, False):
+            for p in Walker(prog, ctx.resolver, call_value=_lc(TRUTHY if hitval else FALSY)).run(dp, dirbase):
+                consulted = any(e.kind == "call" and norm(e.node) == "self.loadcache()" for e in p.events)
+                scenarios.append((p, hitval if consulted else None))
+        for p, hit in scenarios:
             gen = any(e.kind == "call" and e.target.kind == "repo" and any(f.name in ("prep_initfiles", "prep_entries") for f in e.target.funcs) for e in p.events)
             if hit is True:
                 if gen:
